@@ -144,4 +144,18 @@ def run(ctx):
                     side = OWN[cls] if l == "fin_own" else b"C" if l == "fin_unknown" else PEER[cls]
                     r.finish(cur, side + body)
             traces.append(r.json())
+    # randomised API driver: several sessions, honest / tampered / foreign messages, restores under right and wrong
+    # class / parameters, mutated and malformed state
+    import fuzz
+    toy_sets = []
+    for g in ("i23", "ed37", "i263"):
+        uni.paramset("P" + g, grp=g)
+        toy_sets.append(("P" + g, g))
+    uni.paramset("Pi23-alt", grp="i23", M=b"x", N=b"y", S=b"z")
+    toy_sets.append(("Pi23-alt", "i23"))
+    ft = fuzz.fuzz_traces(ctx.rng, uni, mp, toy_sets, 3000 if thorough else 300, "fuzz-toy", 14)
+    ship_sets = [("PEd25519", "Ed25519"), ("P1024", "I1024"), ("P2048", "I2048"), ("P3072", "I3072")]
+    ft += fuzz.fuzz_traces(ctx.rng, uni, mp, ship_sets, 120 if thorough else 6, "fuzz-shipped", 10)
+    ctx.cov["random_api_traces"] = len(ft)
+    traces += ft
     ctx.validate(traces, uni, what="call history")
